@@ -12,6 +12,10 @@ Proof.
   destruct (skipn n l); reflexivity.
 Qed.
 
+Lemma combine_map_same {A B C} (f : A -> B) (g : A -> C) l :
+  combine (map f l) (map g l) = map (fun x => (f x, g x)) l.
+Proof. induction l as [|a l IH]; [reflexivity|]. cbn. now rewrite IH. Qed.
+
 Lemma tree_S {L} (ok : list L -> bool) f l res :
   tree ok (S f) l res =
   if ok l then map fill res
@@ -191,3 +195,153 @@ Proof.
     exfalso. apply Q. replace A with (fadd (fsub A (fmul Bq eta)) (fmul Bq eta)) by ring. rewrite Q2. ring.
 Qed.
 End Bridge.
+
+(* ---- end to end: Go wrapper + C leaf processing + tree = per-index Verify, under good coefficients ---- *)
+Section EndToEnd.
+Context {B : bilinear} {C : codecs}.
+Add Ring FRing9 : Fring.
+
+Lemma tree_transport {L1 L2 T} (ok1 : list L1 -> bool) (ok2 : list L2 -> bool) (f : T -> L1) (g : T -> L2) :
+  (forall l, ok1 (map f l) = ok2 (map g l)) ->
+  forall fuel l res, tree ok1 fuel (map f l) res = tree ok2 fuel (map g l) res.
+Proof.
+  intro H. induction fuel as [|n IH]; intros l res; [reflexivity|].
+  rewrite !tree_S. rewrite H. destruct (ok2 (map g l)); [reflexivity|].
+  destruct l as [|a [|b l']]; try reflexivity.
+  change (match map f (a :: b :: l') with
+          | [] => res
+          | [_] => match res with [] => [] | _ :: t => Invalid :: t end
+          | _ :: _ :: _ =>
+              let rl := Nat.div (length (map f (a :: b :: l'))) 2 in
+              let ll := (length (map f (a :: b :: l')) - rl)%nat in
+              tree ok1 n (firstn ll (map f (a :: b :: l'))) (firstn ll res) ++
+              tree ok1 n (skipn ll (map f (a :: b :: l'))) (skipn ll res)
+          end)
+    with (let rl := Nat.div (length (map f (a :: b :: l'))) 2 in
+          let ll := (length (map f (a :: b :: l')) - rl)%nat in
+          tree ok1 n (firstn ll (map f (a :: b :: l'))) (firstn ll res) ++
+          tree ok1 n (skipn ll (map f (a :: b :: l'))) (skipn ll res)).
+  change (match map g (a :: b :: l') with
+          | [] => res
+          | [_] => match res with [] => [] | _ :: t => Invalid :: t end
+          | _ :: _ :: _ =>
+              let rl := Nat.div (length (map g (a :: b :: l'))) 2 in
+              let ll := (length (map g (a :: b :: l')) - rl)%nat in
+              tree ok2 n (firstn ll (map g (a :: b :: l'))) (firstn ll res) ++
+              tree ok2 n (skipn ll (map g (a :: b :: l'))) (skipn ll res)
+          end)
+    with (let rl := Nat.div (length (map g (a :: b :: l'))) 2 in
+          let ll := (length (map g (a :: b :: l')) - rl)%nat in
+          tree ok2 n (firstn ll (map g (a :: b :: l'))) (firstn ll res) ++
+          tree ok2 n (skipn ll (map g (a :: b :: l'))) (skipn ll res)).
+  cbv zeta. rewrite !map_length, !firstn_map, !skipn_map. now rewrite !IH.
+Qed.
+
+(* one input entry: private scalar of the key, signature bytes, coefficient *)
+Definition entry : Type := (F * list N * F)%type.
+Definition e_sk (e : entry) := fst (fst e).
+Definition e_sig (e : entry) := snd (fst e).
+Definition e_rho (e : entry) := snd e.
+
+(* what the C layer makes of an entry after the Go pre-marking: (sigma', x', initial status) *)
+Definition classify (e : entry) : F * F * st :=
+  if premark (public_key (e_sk e)) (e_sig e) then (f0, f0, Undefined)
+  else match dec1 (e_sig e) with
+       | Some P => if inG1 P then (fst P, e_sk e, Undefined) else (f0, f0, Invalid)
+       | None => (f0, f0, Invalid)
+       end.
+Definition triple_of (e : entry) : F * F * F := (e_rho e, fst (fst (classify e)), snd (fst (classify e))).
+Definition err_of eta (e : entry) : eleaf := (e_rho e, fsub (fst (fst (classify e))) (fmul (snd (fst (classify e))) eta)).
+Definition init_of (e : entry) : st := snd (classify e).
+
+Definition go_pts (es : list entry) : list E2 :=
+  map (fun p => if premark (fst p) (snd p) then O2 else pk_point (fst p)) (combine (map (fun e => public_key (e_sk e)) es) (map e_sig es)).
+Definition go_bs (es : list entry) : list (list N) :=
+  map (fun p => if premark (fst p) (snd p) then enc1 O1 else snd p) (combine (map (fun e => public_key (e_sk e)) es) (map e_sig es)).
+
+Lemma O1_in_G1 : inG1 O1 = true.
+Proof. apply inG1_iff. exists f0. reflexivity. Qed.
+
+Lemma c_leaves_classify es :
+  c_leaves (go_pts es) (go_bs es) (map e_rho es)
+  = map (fun e => (gleaf (e_rho e) (fst (fst (classify e))) (snd (fst (classify e))), init_of e)) es.
+Proof.
+  unfold go_pts, go_bs. induction es as [|e l IH]; [reflexivity|].
+  cbn [map combine c_leaves fst snd]. rewrite IH. f_equal.
+  unfold c_leaf, init_of, classify, gleaf.
+  destruct (premark (public_key (e_sk e)) (e_sig e)) eqn:Ep.
+  - rewrite dec1_enc1, O1_in_G1. unfold smul1, smul2, O1, O2. cbn [fst snd].
+    rewrite t1_smul_0, t2_smul_0. reflexivity.
+  - destruct (dec1 (e_sig e)) as [P|]; cbn [fst snd].
+    + destruct (inG1 P) eqn:Eg; cbn [fst snd].
+      * apply inG1_iff in Eg as [sg ->]. cbn [fst]. cbn [public_key pk_point]. rewrite pk_of_G.
+        rewrite smul1_G, smul2_G. reflexivity.
+      * unfold O1, O2. f_equal. f_equal; f_equal; ring.
+    + unfold O1, O2. f_equal. f_equal; f_equal; ring.
+Qed.
+
+Definition vb (eta : F) (e : entry) : bool :=
+  match verify (public_key (e_sk e)) (e_sig e) good_hasher (eta, t1_0) with VBool v => v | _ => false end.
+
+Lemma feqb_sub a b : feqb (fsub a b) f0 = feqb a b.
+Proof.
+  destruct (feqb_spec a b) as [->|N].
+  - apply feqb_eq. ring.
+  - destruct (feqb_spec (fsub a b) f0) as [E|_]; [|reflexivity]. exfalso. apply N.
+    replace a with (fadd (fsub a b) b) by ring. rewrite E. ring.
+Qed.
+
+(* per entry: (not pre-marked) && (expected status is VALID)  =  individual verification *)
+Lemma entry_agrees eta e :
+  negb (premark (public_key (e_sk e)) (e_sig e)) && st_eqb (expect (err_of eta e, init_of e)) Valid = vb eta e.
+Proof.
+  unfold vb. rewrite verify_unfold. unfold err_of, init_of, classify, expect, premark.
+  cbn [public_key pk_is_identity pk_point].
+  destruct (Nat.eqb (List.length (e_sig e)) _) eqn:El; cbn [negb orb andb]; [|reflexivity].
+  destruct (feqb_spec (e_sk e) f0) as [E0|E0]; cbn [negb andb]; [reflexivity|].
+  destruct (dec1 (e_sig e)) as [P|]; cbn [fst snd]; [|reflexivity].
+  destruct (inG1 P) eqn:Eg; cbn [fst snd]; [|reflexivity].
+  apply inG1_iff in Eg as [sg ->]. cbn [fst]. rewrite verify_E1_G.
+  rewrite feqb_sub. destruct (feqb sg (fmul (e_sk e) eta)); reflexivity.
+Qed.
+
+Theorem batch_agrees_with_verify eta (es : list entry) :
+  es <> [] ->
+  good (S (length es)) (map (err_of eta) es) ->
+  go_batch (map (fun e => Some (public_key (e_sk e))) es) (map e_sig es) good_hasher (eta, t1_0) (map e_rho es)
+  = BOk (map (vb eta) es).
+Proof.
+  intros Hne Hg. unfold go_batch. rewrite !map_length, Nat.eqb_refl. cbn [negb].
+  assert (L0 : Nat.eqb (length es) 0 = false) by (destruct es; [congruence|reflexivity]). rewrite L0.
+  rewrite check_good.
+  rewrite <- (map_map (fun e => public_key (e_sk e)) Some). rewrite all_bls_some.
+  f_equal. fold (go_pts es) (go_bs es).
+  unfold c_batch. rewrite c_leaves_classify. rewrite !map_map. cbn [fst snd]. rewrite map_length.
+  rewrite (tree_transport (node_check (eta, t1_0)) eok
+             (fun e => gleaf (e_rho e) (fst (fst (classify e))) (snd (fst (classify e)))) (err_of eta)).
+  2:{ intro l. rewrite <- (map_map triple_of (fun t => gleaf (fst (fst t)) (snd (fst t)) (snd t))).
+      rewrite node_check_is_eok. rewrite map_map. reflexivity. }
+  rewrite tree_exact.
+  - (* pointwise *)
+    unfold go_pts.
+    clear Hg Hne L0. induction es as [|e l IH]; [reflexivity|].
+    cbn [map combine fst snd]. rewrite IH. f_equal. apply entry_agrees.
+  - rewrite map_length. lia.
+  - now rewrite !map_length.
+  - apply Forall_forall. intros r Hr. apply in_map_iff in Hr as (e & <- & _).
+    unfold init_of, classify. destruct (premark _ _); cbn [snd]; [discriminate|].
+    destruct (dec1 _) as [P|]; [destruct (inG1 P)|]; cbn [snd]; discriminate.
+  - exact Hg.
+Qed.
+
+(* input errors: every returned boolean is false *)
+Theorem batch_errors_all_false pks sigs hs h rhos :
+  match go_batch pks sigs hs h rhos with
+  | BOk _ => True
+  | BErrEmptyList v | BErrInvalidInputs v | BErrHasher _ v | BErrNotBLSKey v => v = repeat false (List.length sigs)
+  end.
+Proof.
+  unfold go_batch. destruct (Nat.eqb _ 0); [reflexivity|]. destruct (negb _); [reflexivity|].
+  destruct (check_hasher hs); [reflexivity|]. destruct (all_bls pks); [exact I|reflexivity].
+Qed.
+End EndToEnd.
